@@ -65,9 +65,14 @@ def main(argv):
             for kt in ((0, 1, 2) if auth else (0,)):
                 ks = {"md5": 16, "sha1": 20}.get(auth, 16)
                 eng = (b"\x80\x00\x1f\x88" + gen.rbytes(rng, rng.choice([1, 8, 28]), False)).hex()
+                if rng.random() < 0.35:
+                    # identity values that look like the structures around them: the zero placeholder of the auth field
+                    # (04 0c 00*12), an empty OCTET STRING, a SEQUENCE header, the digest-sized run of zeros
+                    eng = (b"\x80\x00\x1f\x88" + rng.choice([b"\x04\x0c" + bytes(12), b"\x04\x0c" + bytes(12) + b"\x04\x08" + bytes(8),
+                                                              bytes(12), b"\x04\x00\x30\x0e\x04\x0c" + bytes(12), b"\x30\x82\x00\x10\x04\x0c" + bytes(10)])).hex()
                 pkt = rng.choice([0, 1, 2])              # privacy key type independent of the auth key type
                 given = rng.random() < 0.5               # engine id given (constructor installs the keys) or discovered (set_keys does)
-                v3 = {"user": "u" * rng.choice([1, 8, 32]), "auth": [auth, kt, gen.rbytes(rng, ks if kt else 9, False).hex()] if auth else None,
+                v3 = {"user": rng.choice(["u" * rng.choice([1, 8, 32]), "\x04\x0c" + "\x00" * 12, "\x00" * 12, "\x04\x0c" + "\x00" * 12 + "\x04\x00"]), "auth": [auth, kt, gen.rbytes(rng, ks if kt else 9, False).hex()] if auth else None,
                       "priv": [priv, pkt, gen.rbytes(rng, ks if pkt else 9, False).hex()] if priv else None, "engine_id": eng if given else None, "agent_engine_id": eng,
                       "boots": rng.choice([0, 127, 128, 2 ** 31 - 1]), "time": rng.choice([0, 255, 65536, 2 ** 31 - 1]),
                       "engine_id_empty": (not given) and rng.random() < 0.5}
